@@ -91,6 +91,10 @@ def rule_R19(ctx, rep, config="c-lib", tag=""):
                     continue
                 if not path_exists(f, l, c, []):
                     continue
+                # the function itself installs a new value of the field before the call: the value read is kept on purpose (old table being migrated)
+                own = [x for x in f.all_insts() if x.op == "store" and _obj_of(f, x.ops[1]) == (o, fld)]
+                if any(path_exists(f, l, x, []) and path_exists(f, x, c, []) for x in own):
+                    continue
                 # values derived from the load by pure arithmetic keep the staleness
                 der = set([l.id])
                 work = [l.id]
@@ -123,3 +127,60 @@ def rule_R19(ctx, rep, config="c-lib", tag=""):
 
 def rule_R19_cxx(ctx, rep, config="cxx-lib"):
     rule_R19(ctx, rep, config="cxx-lib", tag="[c++] ")
+
+
+# (source name of the function, field) -> reason why a store before a call that may fail is harmless
+R23_OK = {
+    ("_OS_add_string_function", "os_top_object_free"): "removes the terminator it appends again itself; a failure leaves the string one byte shorter, never longer than the memory",
+    ("_VLO_add_string_function", "vlo_free"): "same as the object stack twin",
+    ("add_string", "os_top_object_free"): "C++ twin",
+    ("add_string", "vlo_free"): "C++ twin",
+}
+
+
+def rule_R23(ctx, rep, config="c-lib", tag=""):
+    rep.rule("R23", "a container operation does not change a field of the container and then call something that may fail (allocate): the error exit would leave a table "
+                    "whose size does not match its array, an object whose boundary does not match its block.  Constructors (the object is not visible yet) and the "
+                    "listed sites are exempt")
+    p = ctx.prog(config)
+    n = 0
+    nthrow = 0
+    for f in p.m.defined():
+        if not f.module or not f.module.startswith(MODULES):
+            continue
+        thr = [c for c in f.calls() if p.call_may_throw(f, c)]
+        if not thr:
+            continue
+        nthrow += len(thr)
+        rep.cover(p, [f.name])
+        src = f.d.get("srcname") or f.name
+        is_ctor = ("C2E" in f.name or "C1E" in f.name) or src in ("create_hash_table", "_OS_create_function", "_VLO_create_function")
+        seen = set()
+        for s_ in f.all_insts():
+            if s_.op != "store":
+                continue
+            o, fld = _obj_of(f, s_.ops[1])
+            if o != ("a", 0) or not fld:
+                continue
+            short = fld.split(".")[-1]
+            after = [c for c in thr if path_exists(f, s_, c, [])]
+            if not after or short in seen:
+                continue
+            seen.add(short)
+            n += 1
+            key = tag + "%s/%s" % (f.name, short)
+            if is_ctor:
+                rep.ok("R23", key, nontrivial=False, sample={"exempt": "constructor"})
+            elif (src, short) in R23_OK:
+                rep.ok("R23", key, nontrivial=False, sample={"exempt": R23_OK[(src, short)]})
+            else:
+                rep.violation("R23", key, "`%s' of the container is changed before %s, which may fail: after the failure the container's fields no longer describe its "
+                              "memory (the next operation on it -- the grammar object stays usable after YAEP_NO_MEMORY -- reads or writes outside it)" % (
+                                  short, after[0].callee or "a call"), where=s_.where(), witness=[s_.where(), after[0].where()])
+    if not n:
+        rep.ok("R23", tag + "no-field-change-before-a-failing-call", sample={"failing_calls_examined": nthrow})
+    rep.floor("R23", tag + "calls that may fail in the container modules", nthrow, 6)
+
+
+def rule_R23_cxx(ctx, rep, config="cxx-lib"):
+    rule_R23(ctx, rep, config="cxx-lib", tag="[c++] ")
